@@ -240,7 +240,10 @@ def fireDue (upto : Nat) : Nat → LSt → LSt × List LObs
       let s1 := setTimer s { t with pending := false }
       let (s2, o2) := match t.kind with
         | .reb => rebalanceFires s1 t.deadline
-        | .Reb => callRebalance s1 t.deadline
+        | .Reb =>
+          -- nobody observes the return of a timer-driven `Rebalance()`: its debounce outcomes are silent
+          let (s', o') := callRebalance s1 t.deadline
+          (s', o'.filter fun x => x != .debounced && x != .reassigned)
       let (s3, o3) := fireDue upto fuel s2
       (s3, o2 ++ o3)
 
@@ -282,8 +285,7 @@ def saveStep (s : LSt) : LSt × List LObs :=
   ({ s with store := w.foldl (fun m (vb, q) => m.set vb q) s.store, dirty := [], anyDirty := false },
    w.map fun (vb, q) => .written vb q)
 
-def step (s : LSt) (op : LOp) : LSt × List LObs :=
-  if s.dead then (s, []) else
+def stepCore (s : LSt) (op : LOp) : LSt × List LObs :=
   match op with
   | .member lo hi => ({ s with memLo := lo, memHi := hi }, [])
   | .setStore vb q => ({ s with store := s.store.set vb q }, [])
@@ -303,6 +305,15 @@ def step (s : LSt) (op : LOp) : LSt × List LObs :=
     | some (s2, o2) => (s2, o1 ++ o2)
     | none => ({ s1 with dead := true }, o1 ++ [.cb .BSP, .failstop "nil-observers"])
   | .query => (s, [.status s.isOpen s.active s.rebalances s.stopClosed s.lo s.hi])
+
+/-- one op, then every timer that is already due fires (`AfterFunc(0, …)` of dynamic membership) -/
+def step (s : LSt) (op : LOp) : LSt × List LObs :=
+  if s.dead then (s, []) else
+  -- once stopCh is closed `dcp.Start` only runs `close()`: nothing else is scheduled any more
+  if s.stopClosed && !(match op with | .shutdown _ => true | .query => true | _ => false) then (s, []) else
+  let (s1, o1) := stepCore s op
+  let (s2, o2) := fireDue s1.now 64 s1
+  (s2, o1 ++ o2)
 
 def run (s : LSt) (ops : List LOp) : LSt := ops.foldl (fun s op => (step s op).1) s
 
